@@ -2,6 +2,7 @@ package props
 
 import (
 	"go/ast"
+	"go/constant"
 	"go/token"
 	"go/types"
 	"sort"
@@ -140,6 +141,292 @@ func c20Atomizer(info *types.Info, isQuery, nestedView *types.Var) an.Atomizer {
 		}
 		return "", false, false
 	}
+}
+
+// ---------------------------------------------------------------------------
+// Guard decision by case split over the read-only states.
+//
+// The guard `!isQuery && nestedView == 0` is the exclusion of the three states
+// (query, no view), (no query, view), (query, view).  For one fixed state every
+// leaf over the two marker fields has a known truth value -- and so has every
+// once-defined local and every same-package bool predicate (extracted helper,
+// e.g. `func isReadOnlyCtx(ctx *vmContext) bool { return ctx.isQuery ||
+// ctx.nestedView > 0 }`) whose body is a formula over them.  The site is guarded
+// iff each state is excluded at the site; "state s is excluded" is decided by the
+// generic engine (g.GuardedAt: guard-edge dominance, or conjunction of the
+// dominating branch outcomes) with an atomizer that maps every expression that
+// is decided by s to the atom RO (true under s) or its negation (false under s),
+// and asks for RO == false.  This decides the same clause as the single
+// {Q:false, V:false} query did, independent of how the test is spelled or where
+// it was extracted to.
+
+type c20State struct{ q, v bool }
+
+func (s c20State) String() string {
+	switch {
+	case s.q && s.v:
+		return "a view function inside a query"
+	case s.q:
+		return "a query"
+	case s.v:
+		return "a view function"
+	}
+	return "a writable context"
+}
+
+// c20StatesOf: the read-only states the class demands to be excluded.
+func c20StatesOf(class string) []c20State {
+	if class == c20Query {
+		return []c20State{{true, false}, {true, true}}
+	}
+	return []c20State{{true, false}, {false, true}, {true, true}}
+}
+
+type c20Eval struct {
+	p          *an.Prog
+	isQuery    *types.Var
+	nestedView *types.Var
+	memo       map[c20PredKey]c20PredVal
+}
+
+type c20PredKey struct {
+	fn *an.Func
+	s  c20State
+}
+type c20PredVal struct{ val, ok bool }
+
+func newC20Eval(p *an.Prog, isQuery, nestedView *types.Var) *c20Eval {
+	return &c20Eval{p: p, isQuery: isQuery, nestedView: nestedView, memo: map[c20PredKey]c20PredVal{}}
+}
+
+// expr evaluates a boolean expression of f under state s; ok=false when the
+// value is not determined by s alone.  params != nil (inside an inlined
+// predicate): marker fields count only when read through one of these objects.
+func (ev *c20Eval) expr(f *an.Func, e ast.Expr, s c20State, params map[types.Object]bool, depth int) (val, ok bool) {
+	if depth > 6 {
+		return false, false
+	}
+	info := f.Info()
+	e = ast.Unparen(e)
+	if tv, has := info.Types[e]; has && tv.Value != nil && tv.Value.Kind() == constant.Bool {
+		return constant.BoolVal(tv.Value), true
+	}
+	if name, neg, isLeaf := c20Atomizer(info, ev.isQuery, ev.nestedView)(e); isLeaf {
+		if params != nil && !c20MarkerThrough(info, e, ev.isQuery, ev.nestedView, params) {
+			return false, false
+		}
+		v := s.v
+		if name == "Q" {
+			v = s.q
+		}
+		return v != neg, true
+	}
+	switch x := e.(type) {
+	case *ast.UnaryExpr:
+		if x.Op == token.NOT {
+			v, ok := ev.expr(f, x.X, s, params, depth+1)
+			return !v, ok
+		}
+	case *ast.BinaryExpr:
+		switch x.Op {
+		case token.LAND, token.LOR:
+			l, lok := ev.expr(f, x.X, s, params, depth+1)
+			r, rok := ev.expr(f, x.Y, s, params, depth+1)
+			absorbing := x.Op == token.LOR // true absorbs ||, false absorbs &&
+			switch {
+			case lok && rok:
+				if x.Op == token.LAND {
+					return l && r, true
+				}
+				return l || r, true
+			case lok && l == absorbing:
+				return l, true
+			case rok && r == absorbing:
+				return r, true
+			}
+		case token.EQL, token.NEQ:
+			if tv, has := info.Types[x.X]; !has || tv.Type == nil || !c20IsBool(tv.Type) {
+				return false, false
+			}
+			l, lok := ev.expr(f, x.X, s, params, depth+1)
+			r, rok := ev.expr(f, x.Y, s, params, depth+1)
+			if lok && rok {
+				return (l == r) == (x.Op == token.EQL), true
+			}
+		}
+	case *ast.Ident:
+		// once-defined local (`ro := ctx.isQuery || ctx.nestedView > 0`)
+		// (declared inside this very body: a captured variable may be written by the enclosing function)
+		if o := info.Uses[x]; o != nil && f.Body != nil && o.Pos() >= f.Body.Pos() && o.Pos() < f.Body.End() {
+			if r := c20GapOnce(f, x); r != ast.Expr(x) {
+				return ev.expr(f, r, s, params, depth+1)
+			}
+		}
+	case *ast.CallExpr:
+		return ev.pred(info, x, s, depth+1)
+	}
+	return false, false
+}
+
+func c20IsBool(t types.Type) bool {
+	b, ok := t.Underlying().(*types.Basic)
+	return ok && b.Info()&types.IsBoolean != 0
+}
+
+// c20MarkerThrough: every read of a marker field inside e goes through one of objs (x.isQuery with x in objs).
+func c20MarkerThrough(info *types.Info, e ast.Expr, isQuery, nestedView *types.Var, objs map[types.Object]bool) bool {
+	ok := true
+	ast.Inspect(e, func(n ast.Node) bool {
+		sel, isSel := n.(*ast.SelectorExpr)
+		if !isSel {
+			return true
+		}
+		if fld := an.FieldOf(info, sel); fld != nil && (fld == isQuery || fld == nestedView) {
+			if o := an.ObjOf(info, sel.X); o == nil || !objs[o] {
+				ok = false
+			}
+		}
+		return true
+	})
+	return ok
+}
+
+// pred evaluates a call of a same-package predicate: a function of package
+// contract with a single bool result whose body is a decision over the marker
+// fields of its parameters (a return expression, or if/return chains), without
+// any other statement.  The argument expressions are not inspected, exactly as
+// c20Atomizer does not inspect the base of `x.isQuery`.
+func (ev *c20Eval) pred(info *types.Info, call *ast.CallExpr, s c20State, depth int) (bool, bool) {
+	callee := an.Callee(info, call)
+	if callee == nil {
+		return false, false
+	}
+	fn := ev.p.FuncOf(callee)
+	cp := ev.p.Pkg("contract")
+	if fn == nil || fn.Body == nil || fn.Decl == nil || cp == nil || fn.Pkg != cp {
+		return false, false
+	}
+	sig, _ := callee.Type().(*types.Signature)
+	if sig == nil || sig.Results().Len() != 1 || !c20IsBool(sig.Results().At(0).Type()) || sig.Variadic() {
+		return false, false
+	}
+	key := c20PredKey{fn, s}
+	if r, done := ev.memo[key]; done {
+		return r.val, r.ok
+	}
+	ev.memo[key] = c20PredVal{} // recursion: undetermined
+	params := map[types.Object]bool{}
+	for _, fl := range []*ast.FieldList{fn.Decl.Recv, fn.Decl.Type.Params} {
+		if fl == nil {
+			continue
+		}
+		for _, fld := range fl.List {
+			for _, nm := range fld.Names {
+				if o := fn.Info().Defs[nm]; o != nil {
+					params[o] = true
+				}
+			}
+		}
+	}
+	val, returned, ok := ev.block(fn, fn.Body.List, s, params, depth)
+	r := c20PredVal{val, ok && returned}
+	ev.memo[key] = r
+	return r.val, r.ok
+}
+
+// block evaluates a statement list of a predicate under state s.
+func (ev *c20Eval) block(fn *an.Func, stmts []ast.Stmt, s c20State, params map[types.Object]bool, depth int) (val, returned, ok bool) {
+	for _, st := range stmts {
+		switch x := st.(type) {
+		case *ast.ReturnStmt:
+			if len(x.Results) != 1 {
+				return false, false, false
+			}
+			v, ok := ev.expr(fn, x.Results[0], s, params, depth)
+			return v, true, ok
+		case *ast.IfStmt:
+			if x.Init != nil {
+				return false, false, false
+			}
+			cv, ok := ev.expr(fn, x.Cond, s, params, depth)
+			if !ok {
+				return false, false, false
+			}
+			var branch []ast.Stmt
+			switch {
+			case cv:
+				branch = x.Body.List
+			case x.Else != nil:
+				if b, isBlock := x.Else.(*ast.BlockStmt); isBlock {
+					branch = b.List
+				} else {
+					branch = []ast.Stmt{x.Else}
+				}
+			}
+			v, ret, ok := ev.block(fn, branch, s, params, depth)
+			if !ok {
+				return false, false, false
+			}
+			if ret {
+				return v, true, true
+			}
+		case *ast.AssignStmt:
+			// definition of locals from call-free expressions (resolved where they are used)
+			if x.Tok != token.DEFINE || len(x.Lhs) != len(x.Rhs) {
+				return false, false, false
+			}
+			for _, r := range x.Rhs {
+				if len(an.CallsIn(r)) > 0 {
+					return false, false, false
+				}
+			}
+		default:
+			return false, false, false
+		}
+	}
+	return false, false, true
+}
+
+// atomizer for one state: expressions decided by the state become RO / !RO.
+func (ev *c20Eval) atomizer(f *an.Func, s c20State) an.Atomizer {
+	return func(e ast.Expr) (string, bool, bool) {
+		if v, ok := ev.expr(f, e, s, nil, 0); ok {
+			return "RO", !v, true
+		}
+		return "", false, false
+	}
+}
+
+var c20WantNotRO = map[string]bool{"RO": false}
+
+// guarded: every read-only state of the class is excluded at vertex n of f.
+func (ev *c20Eval) guarded(f *an.Func, n *an.Node, class string) (bool, string) {
+	g := f.Graph()
+	how := ""
+	for _, s := range c20StatesOf(class) {
+		ok, h := g.GuardedAt(n, ev.atomizer(f, s), c20WantNotRO)
+		if !ok {
+			return false, s.String() + " is not excluded here: " + h
+		}
+		if how == "" || h != how {
+			if how != "" {
+				how += "; "
+			}
+			how += h
+		}
+	}
+	return true, how
+}
+
+// guardedAssuming: like guarded, with extra clauses (see GuardedAtAssuming).
+func (ev *c20Eval) guardedAssuming(f *an.Func, n *an.Node, class string, clauses func(atoms []string) [][]string) bool {
+	g := f.Graph()
+	for _, s := range c20StatesOf(class) {
+		if !g.GuardedAtAssuming(n, ev.atomizer(f, s), c20WantNotRO, clauses) {
+			return false
+		}
+	}
+	return true
 }
 
 func c20Exports(c *rep.Ctx) []*an.Func {
@@ -293,16 +580,8 @@ func runC20(c *rep.Ctx) {
 	// guarded inside the helper becomes a derived mutator: each of its call
 	// sites is then an obligation of the caller, up to the exported callbacks,
 	// where an unguarded site is a violation.
-	wantOf := func(class string) map[string]bool {
-		if class == c20Query {
-			return map[string]bool{"Q": false}
-		}
-		return map[string]bool{"Q": false, "V": false}
-	}
-	guarded := func(f *an.Func, n *an.Node, class string) (bool, string) {
-		g := f.Graph()
-		return g.GuardedAt(n, c20Atomizer(f.Info(), isQuery, nestedView), wantOf(class))
-	}
+	ev := newC20Eval(p, isQuery, nestedView)
+	guarded := ev.guarded
 	isEntry := map[*an.Func]bool{}
 	for _, e := range entries {
 		isEntry[e] = true
@@ -380,7 +659,7 @@ func runC20(c *rep.Ctx) {
 			// Is the site guarded under the assumption that amounts are never negative
 			// (x.Cmp(zero) > 0 or x.Cmp(zero) == 0)?  Then it is the historical negative-amount
 			// defect (known finding F6), a different instance from a missing guard.
-			if cs.fn.Graph().GuardedAtAssuming(cs.node, c20Atomizer(cs.fn.Info(), isQuery, nestedView), wantOf(cls), c20NonNegClauses) {
+			if ev.guardedAssuming(cs.fn, cs.node, cls, c20NonNegClauses) {
 				construct += "|only-if-amount-nonnegative"
 				how = "the guard is conditional on the amount being positive and this path only excludes a zero amount: a negative amount reaches the mutation"
 			}
@@ -571,14 +850,21 @@ func c20Markers(c *rep.Ctx, cg *an.CallGraph, isQuery, nestedView *types.Var) {
 					ok = true
 				}
 			}
-			// the increment is conditional on ce.isView
-			facts := g.FactsAt(n)
-			viewCond := false
-			for _, ft := range facts {
-				if strings.Contains(an.ExprString(ft.Cond), "isView") && ft.Val {
-					viewCond = true
-				}
+			// the increment is conditional on ce.isView: the field itself (resolved through the type
+			// checker, once-defined locals followed) is known true at the increment.  The converse --
+			// every run of a view function is covered by the increment -- is rule call-view-covers-run.
+			isView := p.LookupField("contract", "executor", "isView")
+			if isView == nil {
+				c.Undecide("view-pairing", "contract.(*executor).call", "field executor.isView not found")
+				return
 			}
+			atView := func(e ast.Expr) (string, bool, bool) {
+				if an.FieldOf(f.Info(), c20GapOnce(f, ast.Unparen(e))) == isView {
+					return "W", false, true
+				}
+				return "", false, false
+			}
+			viewCond, _ := g.GuardedAt(n, atView, map[string]bool{"W": true})
 			ok = ok && viewCond
 		}
 		c.Check("view-pairing", "contract.(*executor).call", pos, ok, "executor.call increments nestedView only for view functions and defers the matching decrement in the same branch")
